@@ -112,3 +112,112 @@ func flipCmp(op token.Token) token.Token {
 	}
 	return op
 }
+
+// c18ViewBoxSize (R19): a negative width or height invalidates the viewBox attribute (SVG 1.1 §7.7, SVG 2 §8.6):
+// the element is drawn as if it had none.  In nodeAttributes.viewBox the return that hands out the parsed rectangle
+// is reached, when parsing succeeded, only on paths where its Width and its Height were decided non-negative.
+// (viewBox="0 0 -10 -10" gave the scale -10: a mirrored image.)
+func c18ViewBoxSize(c *core.Check) {
+	p := c.Prog
+	r := c.Rule("R19", "a negative size invalidates viewBox: in svg.nodeAttributes.viewBox the parsed rectangle is returned, when parseViewbox gave no error, only on paths where its Width and Height were decided non-negative by comparisons with zero", 1)
+	fn := p.Method("svg", "nodeAttributes", "viewBox")
+	if fn == nil {
+		r.Anchor("svg.nodeAttributes.viewBox")
+		return
+	}
+	key := "svg.nodeAttributes.viewBox | Width, Height >= 0 before the rectangle is returned"
+	// the rectangle: the allocation returned as first result
+	var rectAlloc *ssa.Alloc
+	var site *ssa.BasicBlock
+	core.Instrs(fn, func(in ssa.Instruction) {
+		ret, ok := in.(*ssa.Return)
+		if !ok || len(ret.Results) != 2 {
+			return
+		}
+		if al, ok := ret.Results[0].(*ssa.Alloc); ok {
+			rectAlloc, site = al, ret.Block()
+		}
+	})
+	if rectAlloc == nil {
+		r.Unknown(key, p.Pos(fn.Pos()), "no return of the address of a local rectangle")
+		return
+	}
+	type cmp struct {
+		atom  ssa.Value
+		field string
+		op    token.Token
+	}
+	var cmps []cmp
+	var atoms []ssa.Value
+	var errAtoms []cmp
+	fieldOf := func(v ssa.Value) string {
+		ld, ok := v.(*ssa.UnOp)
+		if !ok || ld.Op != token.MUL {
+			return ""
+		}
+		fa, ok := ld.X.(*ssa.FieldAddr)
+		if !ok || fa.X != ssa.Value(rectAlloc) {
+			return ""
+		}
+		return core.FieldName(fa)
+	}
+	for _, a := range core.CondAtoms(fn) {
+		b, ok := a.(*ssa.BinOp)
+		if !ok {
+			continue
+		}
+		if f := fieldOf(b.X); f != "" {
+			if z, ok := core.ConstFloat(b.Y); ok && z == 0 {
+				cmps = append(cmps, cmp{a, f, b.Op})
+				atoms = append(atoms, a)
+				continue
+			}
+		}
+		if f := fieldOf(b.Y); f != "" {
+			if z, ok := core.ConstFloat(b.X); ok && z == 0 {
+				cmps = append(cmps, cmp{a, f, flipCmp(b.Op)})
+				atoms = append(atoms, a)
+				continue
+			}
+		}
+		// err == nil / err != nil on the second result of parseViewbox
+		for _, side := range [][2]ssa.Value{{b.X, b.Y}, {b.Y, b.X}} {
+			ex, ok := side[0].(*ssa.Extract)
+			if !ok || ex.Index != 1 {
+				continue
+			}
+			if cst, ok := side[1].(*ssa.Const); ok && cst.IsNil() && (b.Op == token.EQL || b.Op == token.NEQ) {
+				errAtoms = append(errAtoms, cmp{a, "err", b.Op})
+				atoms = append(atoms, a)
+			}
+		}
+	}
+	req := func(assign map[ssa.Value]bool) bool {
+		for _, e := range errAtoms {
+			if (e.op == token.NEQ) == assign[e.atom] {
+				return true // parsing failed: the error is what the caller looks at
+			}
+		}
+		for _, f := range []string{"Width", "Height"} {
+			nonneg := false
+			for _, cm := range cmps {
+				if cm.field != f {
+					continue
+				}
+				t := assign[cm.atom]
+				switch cm.op {
+				case token.LSS, token.LEQ:
+					nonneg = nonneg || !t
+				case token.GEQ, token.GTR:
+					nonneg = nonneg || t
+				}
+			}
+			if !nonneg {
+				return false
+			}
+		}
+		return true
+	}
+	ok, _ := core.GuardedBy(fn, site, atoms, req)
+	r.Cond(ok, key, p.Pos(fn.Pos()), "both sizes are decided non-negative on every path that returns the rectangle without an error", "a path returns the parsed rectangle without an error and without having compared its Width and Height with zero: viewBox=\"0 0 -10 -10\" mirrors the image")
+}
